@@ -229,8 +229,20 @@ def run(F, rep, tier):
     rl = '<streams::Range as core::Stream>::len'
     if F.has_fn(rl):
         b = F.body(rl)
-        if any(c.target.endswith('from_residual') for c in b.calls) and any(c.target.endswith('::as_ref') or c.target.endswith('::branch') for c in b.calls):
-            rep.ok('R11.5', 'Range::len unbounded', 'end.as_ref()? propagates None')
+        # evaluated on the abstract input "end is absent", whatever the shape of the source
+        from .minieval import Evaluator, Cell, Unsupported, OPTION_NONE
+        verdict = None
+        try:
+            ev = Evaluator(b, lambda x, y: None)
+            me_ = ('ref', Cell(('adt', 'Range', 0, [('sym', 'start'), OPTION_NONE, ('sym', 'step')])))
+            res_ = ev.run([me_])
+            verdict = (res_ == OPTION_NONE) or (res_[0] == 'adt' and res_[1] == 'Option' and res_[2] == 0)
+        except Unsupported:
+            verdict = None
+        if verdict is None:
+            verdict = any(c.target.endswith('from_residual') for c in b.calls) and any(c.target.endswith('::as_ref') or c.target.endswith('::branch') for c in b.calls)
+        if verdict:
+            rep.ok('R11.5', 'Range::len unbounded', 'an absent end gives None')
         else:
             rep.viol('R11.5', rl + '|unbounded', 'Range::len does not return None for an absent end', b.loc(0))
     reg = Registry(F)
@@ -299,7 +311,7 @@ def run(F, rep, tier):
                 nchk += 1
                 continue
             nchk += 1
-            og = origins(b, c.args[0], passthru=('deref', 'deref_mut', 'as_mut', 'borrow_mut', 'unwrap', 'expect', 'as_deref_mut', 'branch'))
+            og = origins(b, c.args[0], passthru=('deref', 'deref_mut', 'as_mut', 'borrow_mut', 'unwrap', 'expect', 'as_deref_mut', 'branch', 'into_iter', 'by_ref'))
             names = {o[1].rsplit('::', 1)[-1] for o in og if o[0] == 'call'}
             direct_rc = any(o[0] in ('param', 'payload') and 'Rc<dyn core::Stream' in str(o[-1]) for o in og)
             if names & {'get_mut', 'clone_box', 'make_mut', 'from', 'new'} and not direct_rc:
